@@ -45,8 +45,8 @@ def ref_element(kind, b, id_="r", rnd=None):
     if kind == "ellipse":
         return f'<ellipse id="{id_}" cx="{q(x1 + w / 2)}" cy="{q(y1 + h / 2)}" rx="{q(w / 2)}" ry="{q(h / 2)}"/>'
     if kind == "line":
-        # any of the four orientations of the diagonal (chosen by the box, so that a case keeps its document)
-        o = (x1 * 7 + y1 * 3 + x2 + y2) % 4
+        # any of the four orientations of the diagonal
+        o = rnd.randrange(4) if rnd is not None else (x1 // 4 + (y1 // 4) * 3 + (x2 - x1) // 4 + (y2 - y1) // 2) % 4
         ax, bx = (x1, x2) if o in (0, 1) else (x2, x1)
         ay, by = (y1, y2) if o in (0, 2) else (y2, y1)
         return f'<line id="{id_}" x1="{q(ax)}" y1="{q(ay)}" x2="{q(bx)}" y2="{q(by)}"/>'
